@@ -1054,14 +1054,16 @@ def writer_rules(fb, R):
         gets = [n for n in fn.all_nodes() if n.get('k') == 'call' and n.get('q') == 'std::future::get']
         ok = len(gets) == 1
         if ok:
+            def cond_calls(c):      # names of the calls a condition depends on, looking through named locals
+                return {q.rsplit('::', 1)[-1] for q in callees_deep(fn, c) if q}
             for (c, sense, _b) in atom_guards(fn, gets[0]['id']):
-                names = {fn.nodes[y].get('q', '').rsplit('::', 1)[-1] for y in fn.subtree(c) if fn.nodes[y].get('k') == 'call'}
+                names = cond_calls(c)
                 if not sense or not names or not names <= {'valid', 'wait_for', 'duration', '(ctor)', 'seconds'}:
                     ok = False
             # a ready, valid future is always collected
             def edge_ok(b, idx, s):
                 def atom(c):
-                    return bool({fn.nodes[y].get('q', '').rsplit('::', 1)[-1] for y in fn.subtree(c) if fn.nodes[y].get('k') == 'call'} & {'valid', 'wait_for'})
+                    return bool(cond_calls(c) & {'valid', 'wait_for'})
                 return idx != false_edge_of(fn, fn.blocks[b], atom)
             ok = ok and must_pass(fn, fn.entry, [gets[0]['id']], edge_ok) is None
         R.check(ok, 'G5-flush-polls-future', fn.q, fn.site,
